@@ -20,7 +20,7 @@ from hdl21.primitives import PrimitiveCall
 # number of referenced objects of the `ref` pool (see Universe.ref)
 NREF = 12
 # number of objects WITHOUT a JSON form of the `obj` pool (see Universe.obj)
-NOBJ = 12
+NOBJ = 15
 
 
 class UObj:
@@ -137,7 +137,9 @@ class Universe:
     # the history did before.  0, 1, 2, 5, 6, 7, 11 are compared by identity (one object per interpreter); 3, 4, 8, 9, 10
     # by VALUE: every variant of one index is a separately built, equal object (8 and 9 are unequal, with one repr text)
     OBJ_KIND = {0: "function", 1: "lambda", 2: "user_object", 3: "user_value_object", 4: "user_value_object", 5: "instance",
-                6: "builtin", 7: "partial", 8: "lossy_repr_object", 9: "lossy_repr_object", 10: "bound_method", 11: "class"}
+                6: "builtin", 7: "partial", 8: "lossy_repr_object", 9: "lossy_repr_object", 10: "bound_method", 11: "class",
+                12: "lambda", 13: "closure", 14: "closure"}
+    # 1 and 12 are two different lambdas, 13 and 14 two different functions made by one `def` (one qualified name each pair)
 
     def obj(self, i, variant=0):
         import functools
@@ -171,8 +173,16 @@ class Universe:
             if "wm" not in self.objs:
                 self.objs["wm"] = WithMethod()
             x = self.objs["wm"].meth    # a new bound-method object at every access; they compare equal
-        else:
+        elif i == 11:
             x = Plain
+        elif i == 12:
+            x = lambda: 2
+        else:
+            def make(k):
+                def scaled(v):
+                    return k * v
+                return scaled
+            x = make(i)
         self.objs[key] = x
         return x
 
